@@ -1154,6 +1154,8 @@ class Parser:
         # Stack to track array elements at each depth level
         # Each element is a list of elements for that level
         array_stack: List[List[Node]] = [[] for _ in range(depth)]
+        # Per level: an element has been read, so a comma or ']' must follow
+        after_element: List[bool] = [False for _ in range(depth)]
 
         # Parse elements for innermost array first
         current_depth = depth - 1
@@ -1173,20 +1175,31 @@ class Parser:
                         array_expr, allow_sequence=False
                     )
                     array_stack[current_depth].append(element)
+                    after_element[current_depth] = True
                 else:
                     # We're done
                     return array_expr
             elif self._match(TokenType.COMMA):
                 # More elements in current array - handled by main loop
-                pass
+                if not after_element[current_depth]:
+                    # An elision: [1,,2] has three elements (the missing one reads
+                    # as undefined; arrays cannot have holes)
+                    array_stack[current_depth].append(
+                        UnaryExpression("void", NumericLiteral(0))
+                    )
+                after_element[current_depth] = False
+            elif after_element[current_depth]:
+                raise self._error("Expected ',' or ']' after array element")
             elif self._check(TokenType.LBRACKET):
                 # Nested array - go deeper
                 self._advance()
                 current_depth += 1
                 if current_depth >= len(array_stack):
                     array_stack.append([])
+                    after_element.append(False)
                 else:
                     array_stack[current_depth] = []
+                    after_element[current_depth] = False
             else:
                 # Parse an element expression
                 element = self._parse_assignment_expression()
@@ -1205,6 +1218,7 @@ class Parser:
                                 array_expr, allow_sequence=False
                             )
                             array_stack[current_depth].append(element)
+                            after_element[current_depth] = True
                         else:
                             return array_expr
 
